@@ -35,8 +35,11 @@ theorem ok_step (t : T) (a : Act) (h : ∀ s ∈ t.conns, Ok s) : ∀ s ∈ (ste
     · exact hs
     · exact hs
 
-/-- C02 attribution among several conns, with descriptor number reuse and stale events: at every point of every
-    history, every conn has been handed a prefix of exactly what its own peer sent -/
+/-- Bookkeeping invariant of the table model: at every point of every history, for every conn of the MODEL, handed over ++
+    still queued = what its own peer sent. TRUE BY CONSTRUCTION: each `Side` record touches only its own fields and the proof
+    never uses `owner` — it would survive any lookup function. It is NOT a proof that the dispatch attributes correctly; that
+    is judged by the `side=` correspondence (gatedrv runs this model, `owner` included, against the code) and by the per-conn
+    content oracle of `hread`, for synchronous reads only. -/
 theorem c02_attribution (as : List Act) : ∀ t, (∀ s ∈ t.conns, Ok s) → ∀ s ∈ (run t as).conns, Ok s := by
   induction as with
   | nil => intro t h; exact h
